@@ -364,32 +364,23 @@ func (x *exec) discover(st *State, b *ssa.BasicBlock, li *loopInfo) *recorder {
 }
 
 func isPreLoopTerm(t Term, start int) bool {
-	// every fresh name is hint!N ; the term is pre-loop when all N <= start
+	// every fresh name is hint!N and heap names are key@N (N from the same counter);
+	// the term is pre-loop when all N <= start
 	s := t.S
 	for i := 0; i < len(s); i++ {
-		if s[i] == '!' {
-			j := i + 1
-			n := 0
-			for j < len(s) && s[j] >= '0' && s[j] <= '9' {
-				n = n*10 + int(s[j]-'0')
-				j++
-			}
-			if n > start {
-				return false
-			}
-			i = j
+		if s[i] != '!' && s[i] != '@' {
+			continue
 		}
-		if s[i] == '@' { // heap names key@epoch: epoch numbers are fresh counters too
-			j := i + 1
-			n := 0
-			for j < len(s) && s[j] >= '0' && s[j] <= '9' {
-				n = n*10 + int(s[j]-'0')
-				j++
-			}
-			if n > start {
-				return false
-			}
+		j := i + 1
+		n := 0
+		for j < len(s) && s[j] >= '0' && s[j] <= '9' {
+			n = n*10 + int(s[j]-'0')
+			j++
 		}
+		if j > i+1 && n > start {
+			return false
+		}
+		i = j - 1
 	}
 	return true
 }
